@@ -66,7 +66,7 @@ for look, val in (("positive_lookahead", "truthy(result) == truthy(old_call_resu
       modifies=RULEMOD, raises=["SyntaxError"], properties=["C17"])
 
 C(f"{F}:Parser.expect_forced", params={**P, "res": "opt[Tok]", "expectation": "str"}, returns="opt[Tok]",
-  requires=["tk_ok(self._tokenizer)", "len(self._tokenizer._tokens) > 0 or self._tokenizer._index == 0"],
+  requires=["tk_ok(self._tokenizer)", "toks_wf(self._tokenizer)", "len(self._tokenizer._tokens) > 0 or self._tokenizer._index == 0"],
   ensures=["not is_none(result)", "not is_none(res)", "result == res"],
   raises=["SyntaxError"], modifies=TKMOD, properties=["C17", "C11"])
 
@@ -74,12 +74,16 @@ C(f"{F}:Parser.span", params={**P, "lnum": "int", "col": "int"}, requires=["cach
   raises=[], pure=True, properties=["C01", "C04"])
 
 C(f"{F}:Parser.check_version", params={**P, "min_version": "version", "error_msg": "str", "node": "val"}, returns="val",
-  ensures=["result == node", "self.py_version >= min_version"], raises=["SyntaxError"],
+  requires=["tk_ok(self._tokenizer)", "toks_wf(self._tokenizer)", "len(self._tokenizer._tokens) > 0 or self._tokenizer._index == 0"],
+  ensures=["result == node", "self.py_version >= min_version"], raises=["SyntaxError"], modifies=TKMOD,
   raises_when={"SyntaxError": "not (self.py_version >= min_version)"}, properties=["C15"])
 
-C(f"{F}:Parser.raise_raw_syntax_error", params={**P, "message": "str", "start": "opt[pos]", "end": "opt[pos]"}, verify=False,
-  why_assumed="one-line wrapper `raise self._build_syntax_error(...)`; its callee is under contract", always_raises=True,
-  raises=["SyntaxError"], properties=["C02", "C03"])
+C(f"{F}:Parser.raise_raw_syntax_error", params={**P, "message": "str", "start": "opt[pos]=None", "end": "opt[pos]=None"}, verify=False,
+  why_assumed="same function as raise_raw_syntax_error#body (verified there); this entry is the caller-side view", always_raises=True,
+  requires=["tk_ok(self._tokenizer)", "toks_wf(self._tokenizer)", "len(self._tokenizer._tokens) > 0 or self._tokenizer._index == 0",
+            "implies(not is_none(start), start[0] >= 1 and start[1] >= 0)", "implies(not is_none(end), end[0] >= 1 and end[1] >= 0)",
+            "implies(not is_none(start) and not is_none(end), pos_le(start, end))", "is_none(start) == is_none(end)"],
+  raises=["SyntaxError"], raises_ensures=["wf_error(exc, self)"], modifies=TKMOD, properties=["C02", "C03"])
 
 C(f"{F}:Parser.seq_alts", params=P, vararg="seq[rulefn]", returns="val", requires=POK,
   ensures=KEEP + ["can_peek(self._tokenizer)", f"implies(not truthy(result), {IDX} == {OIDX})",   # every failed alternative is undone
@@ -98,7 +102,7 @@ C(f"{F}:Parser.gathered", params={**P, "func": "rulefn", "sep": "rulefn+"}, vara
   modifies=RULEMOD, raises=["SyntaxError"], properties=["C17"])
 
 C(f"{F}:Parser.parse", params={**P, "rule": "str", "call_invalid_rules": "bool=False"}, returns="val",
-  requires=POK + ["self._tokenizer._index == 0"],
+  requires=POK + ["self._tokenizer._index == 0", "toks_wf(self._tokenizer)"],
   ensures=["not is_none(result)",                                   # C03: never None
            "self.call_invalid_rules == call_invalid_rules"],         # C02: a tree is only ever returned from the pass that was asked for
   modifies=RULEMOD + ["self.call_invalid_rules"], raises=["SyntaxError"], properties=["C02", "C03"])
@@ -174,3 +178,56 @@ C(f"{F}:memoize_left_rec.memoize_left_rec_wrapper#product", params=P, closure=WC
   product={"on": "self._verbose", "observe": OBS,
            "related": ["self._tokenizer._index", "self._tokenizer._abs", "self._cache", "self.in_recursive_rule", "lastresult", "lastmark"]},
   properties=["C15"])
+
+# ---------------------------------------------------------------------------------------------- error construction (C11)
+TKW = ["tk_ok(self._tokenizer)", "toks_wf(self._tokenizer)", "len(self._tokenizer._tokens) > 0 or self._tokenizer._index == 0"]
+POSOK = lambda v: f"implies(not is_none({v}), {v}[0] >= 1 and {v}[1] >= 0)"     # noqa: E731
+WF = "wf_error(exc, self)"
+
+C(f"{F}:Parser._build_syntax_error", params={**P, "message": "str", "start": "opt[pos]=None", "end": "opt[pos]=None"}, returns="obj:SyntaxError",
+  requires=TKW + [POSOK("start"), POSOK("end"), "implies(not is_none(start) and not is_none(end), pos_le(start, end))",
+                  # one-sided calls take the missing side from the last token read: the given side must be ordered w.r.t. it (call sites pass both or none)
+                  "is_none(start) == is_none(end)"],
+  ensures=["wf_error(result, self)", "result.msg == message",
+           "implies(not is_none(start), result.lineno == start[0] and result.offset == start[1] + 1)",
+           "implies(not is_none(end), result.end_lineno == end[0] and result.end_offset == end[1] + 1)"],
+  modifies=TKMOD, raises=["SyntaxError"], properties=["C11"])
+
+NODE = "union[Tok|obj:PosNode]"
+ERRMOD = TKMOD
+
+C(f"{F}:Parser.raise_raw_syntax_error#body", params={**P, "message": "str", "start": "opt[pos]=None", "end": "opt[pos]=None"},
+  requires=TKW + [POSOK("start"), POSOK("end"), "implies(not is_none(start) and not is_none(end), pos_le(start, end))", "is_none(start) == is_none(end)"],
+  always_raises=True, raises=["SyntaxError"], raises_ensures=[WF], modifies=ERRMOD, properties=["C11", "C03"])
+
+C(f"{F}:Parser.make_syntax_error", params={**P, "message": "str"}, returns="obj:SyntaxError", requires=TKW,
+  ensures=["wf_error(result, self)"], modifies=ERRMOD, raises=["SyntaxError"], properties=["C11"])
+
+C(f"{F}:Parser.raise_syntax_error", params={**P, "message": "str"}, requires=TKW, always_raises=True, raises=["SyntaxError"],
+  raises_ensures=[WF], modifies=ERRMOD, properties=["C11"])
+
+C(f"{F}:Parser.raise_syntax_error_known_location", params={**P, "message": "str", "node": NODE}, requires=TKW + ["node_wf(node)"],
+  always_raises=True, raises=["SyntaxError"], raises_ensures=[WF], modifies=ERRMOD, properties=["C11"])
+
+C(f"{F}:Parser.raise_syntax_error_known_range", params={**P, "message": "str", "start_node": NODE, "end_node": NODE},
+  requires=TKW + ["node_wf(start_node)", "node_wf(end_node)",
+                  # the range is ordered: the first node starts no later than the second one ends (obligation of every call site)
+                  "pos_le(node_start(start_node), node_end(end_node))"],
+  always_raises=True, raises=["SyntaxError"], raises_ensures=[WF], modifies=ERRMOD, properties=["C11"])
+
+C(f"{F}:Parser.raise_syntax_error_starting_from", params={**P, "message": "str", "start_node": NODE},
+  requires=TKW + ["node_wf(start_node)", "len(self._tokenizer._tokens) > 0",
+                  "pos_le(node_start(start_node), last(self._tokenizer._tokens).start)"],
+  always_raises=True, raises=["SyntaxError"], raises_ensures=[WF], modifies=ERRMOD, properties=["C11"])
+
+C(f"{F}:Parser.raise_syntax_error_on_next_token", params={**P, "message": "str"}, requires=POK + ["toks_wf(self._tokenizer)"],
+  always_raises=True, raises=["SyntaxError"], raises_ensures=[WF], modifies=ERRMOD, properties=["C11"])
+
+C(f"{F}:Parser.raise_indentation_error", params={**P, "msg": "str"}, requires=TKW, always_raises=True, raises=["IndentationError"],
+  raises_ensures=[WF], modifies=ERRMOD, properties=["C11"])
+
+C(f"{F}:Parser.expect_forced#wf", params={**P, "res": "opt[Tok]", "expectation": "str"}, returns="opt[Tok]", requires=TKW,
+  raises=["SyntaxError"], raises_ensures=[WF], modifies=ERRMOD, properties=["C11"])
+
+C(f"{F}:Parser.check_version#wf", params={**P, "min_version": "version", "error_msg": "str", "node": "val"}, returns="val", requires=TKW,
+  raises=["SyntaxError"], raises_ensures=[WF], modifies=ERRMOD, properties=["C11"])
